@@ -481,14 +481,49 @@ def check_idxpoint(case, rec=None):
     omr = np.radians(om)
     dtyi = G.dty_to_dtyi(y0 - sx * np.sin(omr) - sy * np.cos(omr), ystep, ymin)
     _, eta = O.geo_tth_eta(xyz - origin(om))
-    pbp.parglobal = parameters.parameters(**par)
-    pbp.ucglobal = unitcell.unitcell(cell, "P")
-    pbp.symglobal = getattr(sym_u, name)()
-    indexing.loglevel = 10
-    with contextlib.redirect_stdout(io.StringIO()):
-        ok, res = guard(pbp.idxpoint, si, sj, np.ones(n, bool), om, np.sin(omr), np.cos(omr), dtyi, xyz[0].copy(),
-                        xyz[1].copy(), xyz[2].copy(), eta, ystep=ystep, y0=y0, ymin=ymin, minpks=int(0.6 * n),
-                        hkl_tol=0.05, ds_tol=0.01, forgen=[0, 1, 2], hmax=12, uniqcut=0.75)
+    idxopts = dict(ystep=ystep, y0=y0, ymin=ymin, minpks=int(0.6 * n), hkl_tol=0.05, ds_tol=0.01, forgen=[0, 1, 2],
+                   hmax=12, uniqcut=0.75)
+    if case["seed"] % 2:
+        # the worker as the pool runs it: initializer(parameter file, symmetry, peaks file) then proxy((i, j, opts)).
+        # A pool process is initialised again when a second map (other phase / symmetry) is indexed: do that here
+        import os, h5py
+        tmp = os.environ.get("VERIF_TMP", ".")
+        parfile = os.path.join(tmp, "c16_%d.par" % os.getpid())
+        colfile = os.path.join(tmp, "c16_%d.h5" % os.getpid())
+        pp = dict(par)
+        pp.update({"cell__a": cell[0], "cell__b": cell[1], "cell__c": cell[2], "cell_alpha": cell[3],
+                   "cell_beta": cell[4], "cell_gamma": cell[5], "cell_lattice_[P,A,B,C,I,F,R]": "P"})
+        parameters.parameters(**pp).saveparameters(parfile)
+        with h5py.File(colfile, "w") as h:
+            g = h.create_group("peaks")
+            g.attrs["ImageD11_type"] = "peaks"
+            for nm, v in (("isel", np.ones(n, np.int8)), ("omega", om), ("sinomega", np.sin(omr)),
+                          ("cosomega", np.cos(omr)), ("dtyi", np.asarray(dtyi)), ("xl", xyz[0]), ("yl", xyz[1]),
+                          ("zl", xyz[2]), ("eta", eta)):
+                g.create_dataset(nm, data=np.ascontiguousarray(v))
+        other = IDX_GROUPS[(IDX_GROUPS.index(name) + 1 + case["seed"] // 2 % (len(IDX_GROUPS) - 1)) % len(IDX_GROUPS)]
+        with contextlib.redirect_stdout(io.StringIO()):
+            ok, res = guard(pbp.initializer, parfile, None, other, colfile, 10)
+            if ok:
+                ok, res = guard(pbp.initializer, parfile, None, name, colfile, 10)
+            if ok:
+                ok, res = guard(pbp.proxy, (si, sj, idxopts))
+                if ok:
+                    if tuple(res[:2]) != (si, sj):
+                        return [fail("idxpoint", "proxy returned voxel %s for voxel %s" % (res[:2], (si, sj)),
+                                     group=name)]
+                    res = res[2]
+        pbp.colglobal = None                      # release the memory maps before the file goes
+        for f in (parfile, colfile):
+            os.remove(f)
+    else:
+        pbp.parglobal = parameters.parameters(**par)
+        pbp.ucglobal = unitcell.unitcell(cell, "P")
+        pbp.symglobal = getattr(sym_u, name)()
+        indexing.loglevel = 10
+        with contextlib.redirect_stdout(io.StringIO()):
+            ok, res = guard(pbp.idxpoint, si, sj, np.ones(n, bool), om, np.sin(omr), np.cos(omr), dtyi, xyz[0].copy(),
+                            xyz[1].copy(), xyz[2].copy(), eta, **idxopts)
     if not ok:
         return [exc_failure("point_by_point.idxpoint", res)]
     fails = []
